@@ -163,5 +163,5 @@ Proof.
   unfold strip_quotes. rewrite aeq_refl. simpl length.
   assert (L : Nat.leb 2 (S (length (escape str ++ [dq]))) = true).
   { rewrite app_length. simpl. destruct (length (escape str) + 1)%nat eqn:E; [lia | reflexivity]. }
-  rewrite L. simpl. rewrite removelast_last. apply unescape_escape.
+  rewrite L, last_last, aeq_refl. simpl. rewrite removelast_last. apply unescape_escape.
 Qed.
